@@ -53,6 +53,9 @@ def run(tier: str, seed: int) -> int:
             continue
         if tier == "quick" and ((nsteps != (1 if (N + km) % 2 else 5)) or (D == 3 and 7 < N < 49 and km > 1) or (N >= 49 and km != 3)):
             continue
+        # thorough tier: every grid / mode / order, but a subset of the step counts, and the large (float-hazard) grids with one step only
+        if tier != "quick" and (nsteps not in (1, 2, 5) or (N >= 49 and (nsteps != 1 or km not in (1, 3))) or (D == 3 and N > 9 and N < 49 and nsteps != 1)):
+            continue
         wfac = 0 if kind == "velocity3d" else 1
         for L in ((1.0 if (N + km) % 3 else 3.0, 2 * np.pi)[: 1 if N % 2 else 2] if tier == "quick" else (2 * np.pi, 1.0, 3.0, 0.37 * 2 * np.pi)):
             omega = 2 * np.pi / L
